@@ -91,7 +91,7 @@ def build_plan(K, shape, case):
     return plan, chosen
 
 
-@prop.given("simultaneous-fail-stop", _case, quick=800, thorough=30000)
+@prop.given("simultaneous-fail-stop", _case, quick=600, thorough=30000)
 @_survey
 async def check(case, rec):
     from vf import recovery_kit as K
